@@ -22,6 +22,7 @@ func TestVerif(t *testing.T) {
 	vrep.Main(t, "github.com/google/licenseclassifier/commentparser", map[string]vrep.Harness{
 		"c18_lexer":  c18Lexer,
 		"c18_chunks": c18Chunks,
+		"c18_long":   c18Long,
 	})
 }
 
@@ -456,6 +457,69 @@ func c18Chunks(c *vrep.Ctx) {
 		}
 		if m := r.Note["msg"].(string); m != "" {
 			c.Violate("c18_chunks:"+strings.ReplaceAll(l, " ", ","), "comments at lines ["+l+"]: "+m, r, m)
+		}
+	})
+}
+
+// c18Long: comments LONGER than any small-buffer size: for every comment style of a handful of
+// languages, a comment whose text is a filler of EVERY length 0..300 followed by a multi-byte
+// character (2, 3 and 4 bytes, the replacement character written out, an invalid byte) and a tail,
+// on one line and spread over lines; Parse against the reference lexer.
+func c18Long(c *vrep.Ctx) {
+	langs := []int{2, langPython, langHTML, 18, langGo, 32} // C-like, Python (# and docstrings), HTML, Haskell, Go, Ruby
+	runes := []string{"\u00e9", "\u4e16", "\U0001F600", "\ufffd", "\xff", "z"}
+	maxPad := c.Pick(300, 1100)
+	c.R.Rule = fmt.Sprintf("for %d languages x every comment style they have (single line, multi line, Python docstring) x filler of EVERY length 0..%d x a closing character of 1-4 bytes (and an invalid byte) x {tail on the same line, text continuing on a second line}: Parse against the reference lexer; non-trivial = cases with a comment", len(langs), maxPad)
+	c.Bound("max_filler", maxPad)
+	type style struct{ open, close string }
+	body := func(r *vx.Run) {
+		lang := langs[r.Choose(len(langs), "language")]
+		d := refTable[lang]
+		var styles []style
+		if d.single != "" {
+			styles = append(styles, style{d.single, "\n"})
+		}
+		if d.mstart != "" {
+			styles = append(styles, style{d.mstart, d.mend})
+		}
+		if lang == langPython {
+			styles = append(styles, style{`"""`, `"""`})
+		}
+		st := styles[r.Choose(len(styles), "style")]
+		if r.Scout() {
+			return
+		}
+		pad := r.Choose(maxPad+1, "filler")
+		ru := runes[r.Choose(len(runes), "character")]
+		two := r.Choose(2, "second line") == 1 && st.close != "\n"
+		text := strings.Repeat("x", pad) + ru + " tail"
+		if two {
+			text += "\nmore " + ru
+		}
+		src := "code()\n" + st.open + text + st.close + "\nrest()\n"
+		msg := ""
+		var got Comments
+		func() {
+			defer func() {
+				if x := recover(); x != nil {
+					msg = fmt.Sprint("panic: ", x)
+				}
+			}()
+			got = Parse([]byte(src), language.Language(lang))
+		}()
+		want := refLex(src, lang)
+		if msg == "" && fmtGot(got) != fmtRef(want) {
+			msg = fmt.Sprintf("Parse found %.200s, the reference lexer %.200s", fmtGot(got), fmtRef(want))
+		}
+		r.Note = map[string]interface{}{"id": fmt.Sprintf("language %d style %q filler %d character %q second line %v", lang, st.open, pad, ru, two), "msg": msg, "n": len(want)}
+	}
+	c.Run(vSplit(c, 0, 2), body, func(r *vx.Run) {
+		id := r.Note["id"].(string)
+		if r.Note["n"].(int) > 0 {
+			c.R.Nontrivial++
+		}
+		if m := r.Note["msg"].(string); m != "" {
+			c.Violate("c18_long:"+strings.ReplaceAll(id, " ", "_"), id+": "+m, r, m)
 		}
 	})
 }
